@@ -234,6 +234,9 @@ def full_float(rng):
 NAMES = ["x", "y", "z", "v0", "v1", "fx_eurusd", "rate", "a b", "q\"t", "é", "crv0", "crv1", "K", "K", "w\\", "日本", "tab\tx"]
 
 
+NAMES_DISTINCT = list(dict.fromkeys(NAMES))
+
+
 def gen_names(rng, n):
     return rng.sample(NAMES, n)
 
@@ -274,7 +277,11 @@ def gen_number(rng, fl, kinds=(0, 1, 2)):
 def gen_cal(rng):
     mask = rng.sample(range(7), rng.choice([0, 1, 2, 2, 2, 3, 6]))
     lo, hi = dn(1999, 1, 1), dn(2031, 12, 31)
-    hols = rng.sample(range(lo, hi), rng.choice([0, 1, 3, 8, 15]))
+    hols = rng.sample(range(lo, hi), rng.choice([0, 1, 3, 8, 15, 15, 40]))
+    if hols and rng.random() < 0.3:
+        # special dates: 29 February, month / year ends, the ends of the supported range
+        hols += [d for d in rng.sample([dn(2000, 2, 29), dn(2024, 2, 29), dn(2023, 12, 31), dn(2024, 1, 1), dn(1970, 1, 1),
+                                        dn(2200, 12, 31), dn(2024, 4, 30), dn(2025, 2, 28)], 3) if d not in hols]
     return [len(mask)] + mask + [len(hols)] + hols
 
 
@@ -346,17 +353,27 @@ def gen_caltype(rng):
 
 def gen_curve(rng, fl):
     nk = rng.choice([0, 0, 1, 2])
-    nn = rng.randint(1, 6)
+    nn = rng.choice([1, 2, 2, 3, 4, 5, 6, 6, 11, 13, 17])
     lo, hi = dn(2000, 1, 1), dn(2040, 1, 1)
     days = rng.sample(range(lo, hi), nn)
     if rng.random() < 0.7:
         days.sort()
     o = [nk, nn]
+    # three curves in ten carry ONE variable set on every node, each node listing it in its own order (as x*y and y*x do)
+    common = rng.sample(NAMES_DISTINCT, rng.randint(2, 4)) if (nk and rng.random() < 0.3) else None
     for d in days:
         o += [d]
         v = abs(fl(rng)) or 0.5
         if nk == 0:
             o += [f2b(v)]
+        elif common is not None:
+            vs = list(common)
+            if rng.random() < 0.6:
+                rng.shuffle(vs)
+            n = len(vs)
+            o += enc_names(vs) + [f2b(v if rng.random() < 0.4 else fl(rng))] + [f2b(fl(rng)) for _ in range(n)]
+            if nk == 2:
+                o += [f2b(fl(rng)) for _ in range(n * n)]
         elif nk == 1:
             o += gen_dual(rng, lambda r, v=v: v if r.random() < 0.4 else fl(r), 2)
         else:
